@@ -257,6 +257,10 @@ func GenerateScript(seed uint64, prop, tier string, env *Env) *Script {
 		s.Config.Genesis.ExtraDenoms = append(s.Config.Genesis.ExtraDenoms, WhaleDenom)
 		g.whale = true
 	}
+	if rng.Chance(0.3) {
+		// chains that do not start at height 1: heights around encoding and arithmetic boundaries
+		s.Config.InitialHeight = []int64{2, 100, 255, 65535, 1<<31 - 3, 1<<32 - 2, 1 << 53}[rng.Intn(7)]
+	}
 	g.now = time.Unix(s.Config.Genesis.TimeUnix, 0).UTC()
 	g.plan = NewModel()
 	if rng.Chance(g.p.Seeded) {
